@@ -2,6 +2,7 @@
 //
 //	c19 probe <seed>
 //	c19 fresh <seed> <srp calls> <log-out>     (freshness stage, see fresh.go)
+//	c19 exchange <seed> <n> <log-out>          (freshness through real key exchanges, see exchange.go)
 //
 // For each secret that can be generated without a network it asks the REAL code of the tree twice,
 // calling math/rand.Seed(<seed>) before each run, and prints both results:
@@ -71,8 +72,12 @@ func main() {
 		freshMain(os.Args[2:])
 		return
 	}
+	if len(os.Args) > 1 && os.Args[1] == "exchange" {
+		exchangeMain(os.Args[2:])
+		return
+	}
 	if len(os.Args) != 3 || os.Args[1] != "probe" {
-		fmt.Fprintln(os.Stderr, "usage: c19 probe <seed> | c19 fresh <seed> <srp calls> <log-out>")
+		fmt.Fprintln(os.Stderr, "usage: c19 probe <seed> | c19 fresh <seed> <srp calls> <log-out> [stream seed] | c19 exchange <seed> <n> <log-out> [stream seed]")
 		os.Exit(2)
 	}
 	seed, err := strconv.ParseInt(os.Args[2], 10, 64)
